@@ -6,6 +6,28 @@ import random
 import common
 import srv
 
+PATH_OPS = ["OPEN_DIR", "STAT_FILE", "OPEN_FILE", "GET_DIR_SIZE", "CREATE_FILE", "DELETE_FILE", "MKDIR", "RMDIR"]
+
+
+def truncation_worlds(rng, nodes):
+    """Every truncation point of every request kind, after a short state-setting prefix."""
+    worlds = []
+    prefixes = [[], [{"op": "OPEN_DIR", "path": "/a"}, {"op": "OPEN_FILE", "path": "/" + "/".join(
+        [n for n in nodes if n["kind"] == "file"][0]["p"])}]]
+    frames = [({"op": op, "path": "/a/sub"}, 16 + 6) for op in PATH_OPS]
+    frames += [({"op": "READ_FILE", "limit": 10, "off": 0}, 16), ({"op": "READ_FILE_CRITICAL", "limit": 1, "off": 0}, 16),
+               ({"op": "READ_CD_2048", "start": 0, "count": 1}, 16), ({"op": "READ_DIR"}, 16), ({"op": "READ_DIR_ENTRY"}, 16),
+               ({"op": "READ_DIR_ENTRY_V2"}, 16), ({"op": "WRITE_FILE", "plen": 40, "chunk": "wt"}, 16 + 40)]
+    for pi, pre in enumerate(prefixes):
+        for fr, ln in frames:
+            cuts = sorted(set([1, 2, 3, 8, 15, 16, 17, ln - 1]) & set(range(1, ln)))
+            for cut in cuts:
+                r = dict(fr)
+                r["cut"] = cut
+                worlds.append({"name": "trunc-%d-%s-%d" % (pi, fr["op"], cut), "aw": True, "nodes": nodes,
+                               "conns": [{"id": 1, "reqs": pre + [r]}], "probe": True})
+    return worlds
+
 
 def run(tier, seed, replay=None):
     rep = common.Report("C03", tier, seed, "model_checking")
@@ -17,16 +39,54 @@ def run(tier, seed, replay=None):
         ctx = srv.SrvCtx(scratch, harness, specdir, proto)
         if replay:
             worlds = json.load(open(os.path.join(replay, "script.json")))["worlds"]
-        else:
-            worlds = []
-            n = 12 if tier == "quick" else 120
-            for i in range(n):
-                nodes = srv.basic_world(rng)
-                aw = rng.random() < 0.6
-                conns = [{"id": 1, "reqs": srv.random_session(rng, nodes, nreq=30, aw=aw)}]
-                worlds.append({"name": "rand%d" % i, "aw": aw, "nodes": nodes, "conns": conns, "probe": True})
-        srv.run_and_validate(ctx, worlds, rep)
-        rep.cov["rule"] = "random sessions over all opcodes; distinct = worlds whose whole trace TLC accepted"
+            srv.run_and_validate(ctx, worlds, rep)
+            rep.cov["samples"] = [w["name"] for w in worlds]
+            return rep.finish()
+
+        # 1. design level: the specification itself (exhaustive, small scope)
+        mcs = [("MC_Protocol.cfg", 12)] if tier == "quick" else [("MC_Protocol.cfg", 12), ("MC_ReadOnly.cfg", 12), ("MC_Write2.cfg", 12)]
+        for cfg, wk in mcs:
+            res = common.run_tlc(specdir, "MC_Ps3NetSrv.tla", cfg, workers=wk, timeout=1500, heap="12g")
+            common.tlc_must_pass(res, cfg)
+            rep.add_tlc(res)
+            rep.notes.append("%s: %d states, %d distinct, depth %d" % (cfg, res.generated, res.distinct, res.depth))
+
+        # 2. model -> code: one session per (abstract state x request) transition of the model
+        world, cases, gres = srv.generate_sessions(specdir, "MC_Ps3NetSrv.tla", "GEN_Protocol.cfg",
+                                                   {"MaxReqs": 3 if tier == "quick" else 4})
+        rep.add_tlc(gres)
+        nodes = srv.model_nodes(world)
+        views = world["views"]
+        if tier == "quick" and len(cases) > 1500:
+            cases = rng.sample(cases, 1500)
+        worlds = []
+        for i, reqs in enumerate(cases):
+            worlds.append({"name": "gen%d" % i, "aw": True, "nodes": nodes, "views": views,
+                           "conns": [{"id": 1, "reqs": [srv.abstract_to_req(a) for a in reqs]}]})
+        gen_n = len(worlds)
+
+        # 3. every truncation point of every request kind
+        tnodes = srv.basic_world(rng)
+        worlds += truncation_worlds(rng, tnodes)
+
+        # 4. code -> model: seeded random sessions over all opcodes
+        n = 40 if tier == "quick" else 400
+        for i in range(n):
+            nodes_r = srv.basic_world(rng)
+            aw = rng.random() < 0.6
+            conns = [{"id": 1, "reqs": srv.random_session(rng, nodes_r, nreq=40, aw=aw)}]
+            worlds.append({"name": "rand%d" % i, "aw": aw, "nodes": nodes_r, "conns": conns, "probe": True})
+
+        # batches keep TLC's trace files manageable
+        B = 4000
+        for b in range(0, len(worlds), B):
+            srv.run_and_validate(ctx, worlds[b:b + B], rep)
+        rep.cov["rule"] = ("sessions = (a) one per transition (abstract state x request) of the TLC model, (b) every truncation "
+                           "point of every request kind, (c) seeded random sessions; distinct_nontrivial = sessions whose "
+                           "complete trace TLC accepted")
         rep.cov["distinct_nontrivial"] = rep.cov["traces_validated_against_impl"]
-        rep.cov["samples"] = [worlds[0]["conns"][0]["reqs"][:5]] if worlds else []
+        rep.cov["generated_sessions"] = gen_n
+        rep.cov["samples"] = [worlds[0]["conns"][0]["reqs"], worlds[gen_n]["conns"][0]["reqs"], worlds[-1]["conns"][0]["reqs"][:6]]
+        rep.assumptions += ["in-memory net.Conn stands for a TCP connection (byte-exact, quiescence observable)",
+                            "responses are decoded by a generic interpreter of the layout table exported from Proto.tla"]
     return rep.finish()
